@@ -38,7 +38,9 @@ FLAVOURS = ["serial", "tcp", "aserial", "atcp"]
 
 def gen(rng, tier, index):
     version = rng.choice(["1.4", "1.5", "2.0", "2.0", "2.1", "2.2", "2.2"])
-    ops = netgen.make_ops(rng, version, rng.randint(8, 40), WEIGHTS, nodes=(1, 3), scenario=0.3)
+    # a quarter of the streams are long bursts (several KiB piled up in the OS buffer)
+    n_lines = rng.randint(8, 40) if rng.random() < 0.75 else rng.randint(60, 160)
+    ops = netgen.make_ops(rng, version, n_lines, WEIGHTS, nodes=(1, 3), scenario=0.3)
     stream = bytearray()
     line_ends = []
     for op in ops:
@@ -57,9 +59,16 @@ def gen(rng, tier, index):
     variants = []
     for _ in range(rng.randint(3, 6)):
         flavour = rng.choice(FLAVOURS)
-        seg = rng.choice(["bytes", "random", "random", "one", "blocks", "lines", "pairs"])
+        seg = rng.choice(["bytes", "random", "random", "one", "blocks", "lines", "pairs", "head_tail", "head_tail"])
+        if len(stream) > 2500 and seg == "bytes":
+            seg = "head_tail"
         cuts = []
-        if seg == "random":
+        if seg == "head_tail":
+            # a few bytes (a cut inside a line), then everything else in one read
+            seg = "random"
+            base = rng.choice([0] + line_ends[:3]) if line_ends else 0
+            cuts = [min(max(1, base + rng.randint(1, 12)), max(1, len(stream) - 1))]
+        elif seg == "random":
             n = rng.randint(1, max(1, len(stream) // 7))
             cuts = sorted(set(rng.randrange(1, max(2, len(stream))) for _ in range(n)))
         pol = rng.random()
